@@ -14,6 +14,8 @@ retain x_pre=<H32>      the Go side keeps (copy of the state, clone of the live 
 recheck x_r=<H32>       re-dump the retained pair whose state root is `x_r`: answer `ok root=<r> fresh=same <ctxOf dump>`
 sibling x_r=<H32> x_to=<slot> x_root=<H32> <FLAT STATE>   the retained pair `x_r` is advanced by empty slots (another
                         continuation than the live chain); answered like `recheck` for the new state
+sibblock x_r=<H32> x_slot=<slot> x_fork=<name> x_ssz=<hex> x_root=<H32> <FLAT STATE>   the retained pair is fed a block
+                        of an independent sibling chain (different blocks than the live chain); answered like `sibling`
 reload x_pre=<H32>      from here on a second pair (state reloaded from SSZ bytes, fresh context) runs along
 endreload
 ```
@@ -116,9 +118,10 @@ def step (d : DState) (line : String) : DState × String :=
         | some (_, st) => if !extra.isEmpty then bad else (d, renderKept r (ctxOf cfg st))
         | none => bad
       | _, _ => bad
-    else if op = "sibling" then
+    else if op = "sibling" || op = "sibblock" then
       let (kv, extra) := parseKV rest
-      match d.cfg, kv.get? "x_r", kv.get? "x_root", parseState kv, (kv.get? "x_to").bind String.toNat? with
+      match d.cfg, kv.get? "x_r", kv.get? "x_root", parseState kv,
+          (kv.get? (if op = "sibling" then "x_to" else "x_slot")).bind String.toNat? with
       | some cfg, some r, some root, .ok st, some _ =>
         if !extra.isEmpty || !(d.kept.any (·.1 = r)) then bad else
         -- the first retained pair with that root moves on to the line's state
